@@ -753,8 +753,33 @@ func astFromValue(value interface{}, ttype Type) ast.Value {
 		}
 		return nil
 	}
-	if valueVal.Type().Kind() == reflect.Map {
-		// TODO: implement astFromValue from Map to Value
+	// Convert a Golang map to a GraphQL input object literal, field by
+	// field in name order, each value printed against its field's type.
+	if ttype, ok := ttype.(*InputObject); ok && valueVal.Type().Kind() == reflect.Map && valueVal.Type().Key().Kind() == reflect.String {
+		fieldMap := ttype.Fields()
+		fieldNames := make([]string, 0, len(fieldMap))
+		for fieldName := range fieldMap {
+			fieldNames = append(fieldNames, fieldName)
+		}
+		sort.Strings(fieldNames)
+		fields := []*ast.ObjectField{}
+		for _, fieldName := range fieldNames {
+			fieldValue := valueVal.MapIndex(reflect.ValueOf(fieldName).Convert(valueVal.Type().Key()))
+			if !fieldValue.IsValid() {
+				continue
+			}
+			fieldAST := astFromValue(fieldValue.Interface(), fieldMap[fieldName].Type)
+			if fieldAST == nil {
+				continue
+			}
+			fields = append(fields, ast.NewObjectField(&ast.ObjectField{
+				Name:  ast.NewName(&ast.Name{Value: fieldName}),
+				Value: fieldAST,
+			}))
+		}
+		return ast.NewObjectValue(&ast.ObjectValue{
+			Fields: fields,
+		})
 	}
 
 	if value, ok := value.(bool); ok {
